@@ -153,11 +153,21 @@ Definition sp (n : nat) (x y : N) : list Z :=
         n = rng.randint(1, 4)
         s0 = ComputationalBasisState(n, bits=rng.getrandbits(n))
         gl = []
+        # the non-Pauli part of the vocabulary is drawn per case (often a single kind), so that every non-Pauli kind also
+        # occurs as the ONLY non-Pauli gate of a chain
+        nonpauli = rng.sample(["H", "S", "RX", "CNOT", "PauliRotation", "T", "RZ", "SqrtY"], rng.choice([0, 1, 1, 2, 3]))
         for _ in range(rng.randint(1, 6)):
-            k = rng.choice(["X", "Y", "Z", "X", "Y", "Z", "Pauli", "H", "S", "RX", "CNOT"])
+            k = rng.choice(["X", "Y", "Z", "X", "Y", "Z", "Pauli"] + nonpauli + nonpauli)
             if k == "Pauli":
                 qs = rng.sample(range(n), rng.randint(1, n))
                 gl.append(gates.Pauli(qs, [rng.randint(1, 3) for _ in qs]))
+                continue
+            if k == "PauliRotation":
+                qs = rng.sample(range(n), rng.randint(1, n))
+                gl.append(gates.PauliRotation(qs, [rng.randint(1, 3) for _ in qs], O.rand_angle(rng)))
+                continue
+            if k == "RZ":
+                gl.append(gates.RZ(rng.randrange(n), O.rand_angle(rng)))
                 continue
             if k == "CNOT" and n >= 2:
                 q = rng.sample(range(n), 2)
